@@ -31,6 +31,8 @@ CLAIMED["C02"]=("share delta balance (TotalShare and delegator share move by one
   "symbolic delta-term extraction + structured-dominance facts over type-checked AST", "4/C02")
 CLAIMED["C03"]=("no operator-state gate on the exit path; three-index symmetry and delete/re-date/set order; single deletion site, current-height lookup with separator, hold gate, per-record cache context; completion height formula and past-height rejection; index-key freshness; EndBlock order of hold release vs read; pending aggregates via the C01 delta algebra",
   "call-graph reachability (negative who-may-call), sibling agreement of key constructors, structured-dominance facts, effect-derived module order", "4/C03")
+CLAIMED["C05"]=("value formula amount*price/10^(asset+price decimals) and its operand wiring incl. comma-ok lookups of the price and decimals maps; per operator reset-first, self/total assigned, active value and AVS accumulator only under self >= AVS minimum; asset filter = the AVS's supported assets; cache-context discipline of the recompute; epoch hook fan-out with error skip and the `>= start-1` tracking predicate; opt-in creates / opt-out deletes / not-opted-in reads zero; AVS/operator role arguments not swapped",
+  "dataflow-shape and comparison-class rules + structured-dominance facts over type-checked AST; cache-context typestate; role-typed argument matching over entry-reachable calls", "4/C05")
 NA={}
 def main():
     checks=[]
